@@ -48,6 +48,8 @@ manifest = {
          "kind_free_text": "seeded histories over the real state trie on memory/layered/persistent (simulated RocksDB) stores, reference map + independent canonical hasher, crash-prefix enumeration"},
         {"name": "wmptsim", "path": "/verif/harness/wmptsim", "serves_properties": [p for p in ["C09", "C10", "C11", "C12", "C13"] if p in PROPS],
          "kind_free_text": "seeded histories over the real weighted trie on a simulated StorageAdapter / real pebble on StrictMem, sorted-map reference + independent hasher, crash-prefix enumeration, tampering channel for proofs"},
+        {"name": "cachesim", "path": "/verif/harness/cachesim", "serves_properties": [p for p in ["C06", "C07", "C08"] if p in PROPS],
+         "kind_free_text": "seeded block trees over the real statecache package against a block-tree reference model; C08 runs the same model under a seeded task scheduler on an instrumented copy"},
     ],
     "checks": checks,
     "not_applicable": na,
